@@ -152,7 +152,8 @@ FrameExpect(s, i) ==
     [] c = "baddecode"  -> <<Exp("err", f.t, 0, b + HDR + f.len, b + HDR + f.len, FALSE, i)>>
     [] c = "badcount"   -> <<Exp("err", f.t, 0, b + HDR + Min(f.len, 2), b + HDR + f.len, FALSE, i)>>
     [] c = "headers"    -> <<Exp("headers", f.t, f.count, 0, 0, FALSE, i)>>
-    [] c = "trailing"   -> <<Exp("msg", f.t, f.count, 0, 0, TRUE, i)>>
+    \* "item counts inconsistent with its length": the body is longer than what its items need
+    [] c = "trailing"   -> <<Exp("err", f.t, 0, b + HDR, b + HDR + f.len, FALSE, i)>>
     [] c = "msg"        -> IF f.t = T_Archive
                            THEN <<Exp("msg", f.t, f.count, 0, 0, FALSE, i), Exp("att", f.t, f.att, 0, 0, FALSE, i)>>
                            ELSE <<Exp("msg", f.t, f.count, 0, 0, FALSE, i)>>
@@ -311,6 +312,11 @@ ParseBody ==
      THEN Return(Res("err", st.t, 0, 0, st.fi, pos, "unexpected"), [NoneSt EXCEPT !.fi = st.fi], buf - nl, -1)
      ELSE IF f.need < 0 \/ f.need > st.len
      THEN Return(Res("err", st.t, 0, 0, st.fi, pos, "decode"), [NoneSt EXCEPT !.fi = st.fi], buf - nl, -1)
+     ELSE IF f.need < st.len
+     THEN \* the statement: a body whose length exceeds what its items account for is refused
+          \* (codec.rs `decode_message` does not check that the body was consumed: the replay
+          \* reports that as codec:trailing_bytes_accepted:<type>)
+          Return(Res("err", st.t, 0, 0, st.fi, pos, "trailing"), [NoneSt EXCEPT !.fi = st.fi], buf - nl, -1)
      ELSE Return(Res("msg", st.t, f.count, 0, st.fi, pos, ""), [NoneSt EXCEPT !.fi = st.fi], buf - nl,
                  IF st.t = T_Archive THEN f.att ELSE -1)
 
